@@ -21,7 +21,7 @@
    the operation fail and change nothing, in the model as in the specification. *)
 From Coercion.Base Require Import Plan.
 From Coercion.Store Require Import Tree Rows Spec SqliteModel SqliteRep SqliteRefine SqliteTheorems
-     CosmosModel CosmosRep CosmosTheorems.
+     CosmosModel CosmosRep CosmosTheorems SqliteStatic.
 
 Theorem c13_roundtrip_sqlite :
   forall (enc_req : blob -> option code) (dec_req : tok -> code -> option blob)
@@ -36,6 +36,28 @@ Theorem c13_roundtrip_sqlite :
       /\ SqliteModel.results enc_req dec_req enc_att dec_att ops [] = Spec.results enc_req enc_att ops [].
 Proof. exact c13_roundtrip_sqlite_lemma. Qed.
 Print Assumptions c13_roundtrip_sqlite.
+
+(* The same with the domain stated on the operation list alone (SqliteStatic.v): every created plan
+   is in the domain and has pairwise distinct ids, two created plans either have the same plan id
+   (a duplicate create or a re-create) or share no id at all, every Update* carries a state in the
+   domain, UpdateAction attempts fitting the plugin of the created action(s) with that id. *)
+Theorem c13_roundtrip_sqlite_distinct_ids :
+  forall (enc_req : blob -> option code) (dec_req : tok -> code -> option blob)
+         (enc_att : attempt -> option code) (dec_att : tok -> code -> option attempt)
+         (req_ok : tok -> blob -> bool) (att_ok : tok -> attempt -> bool),
+    (forall t b c, req_ok t b = true -> enc_req b = Some c -> dec_req t c = Some b) ->
+    (forall t a c, att_ok t a = true -> enc_att a = Some c -> dec_att t c = Some a) ->
+    forall (ops : list op) (id : uid),
+      Forall (op_static req_ok att_ok (created ops)) ops ->
+      ForallOrdPairs (fun p q => sp_id p = sp_id q \/ ids_disjoint q p) (created ops) ->
+      SqliteModel.read dec_req dec_att id (SqliteModel.run enc_req dec_req enc_att dec_att ops [])
+      = Spec.read id (Spec.run enc_req enc_att ops [])
+      /\ SqliteModel.results enc_req dec_req enc_att dec_att ops [] = Spec.results enc_req enc_att ops [].
+Proof.
+  intros enc_req dec_req enc_att dec_att req_ok att_ok H1 H2 ops id Hs Hp.
+  exact (c13_roundtrip_sqlite_static_lemma enc_req dec_req enc_att dec_att req_ok att_ok H1 H2 ops id (conj Hs Hp)).
+Qed.
+Print Assumptions c13_roundtrip_sqlite_distinct_ids.
 
 (* the core lemma: on any database whose primary keys are distinct, what a successful Create
    committed is read back whole - every definition field, the order of blocks, sequences and actions,
